@@ -461,6 +461,50 @@ def signTies (pts : List (Rat × Rat)) : Bool :=
        decide (rabs (beta * gamma - alpha * delta) ≤ (1 / 10000000 : Rat) * (beta * ga + rabs alpha * de)) ||
        decide (rabs (K * delta - alpha * gamma) ≤ (1 / 10000000 : Rat) * (K * de + rabs alpha * ga)))
 
+/-! ### `KymoTrack.estimate_diffusion` — the dispatcher: argument validation, option handling, defaults -/
+
+/-- `any(np.diff(frame_idx) > 1)` -/
+def hasGap (t : List Pt) : Bool := (diffI (t.map (·.1))).any fun d => decide (1 < d)
+
+/-- `_diffusion_gls` as a function of `(lags, msd)` and the number of points → `(intercept, slope, var_slope)`; the dispatcher
+    is modelled for EVERY such function. -/
+abbrev GlsFn := List MsdRow → Nat → Except String (Rat × Rat × Rat)
+
+/-- `estimate_diffusion_constant_simple(frame_idx, coordinate, time_step, max_lag, method)` for `method ∈ {ols, gls}`:
+    `max_lag < 2` is refused first, then GLS refuses missing frames; `std_err = sqrt(|var_slope|)/(2 dt)`. -/
+def estimateSimple (glsFn : GlsFn) (t : List Pt) (dt : Rat) (maxLag : Int) (gls : Bool) : Except String Est :=
+  if maxLag < 2 then .error "ValueError"
+  else if gls then
+    if hasGap t then .error "RuntimeError"
+    else match glsFn (msdCounts t (some maxLag)) t.length with
+      | .error e => .error e
+      | .ok r =>
+        let toTime := 1 / (2 * dt)
+        .ok ⟨r.2.1 * toTime, rabs r.2.2 * sqr toTime, r.1 / 2, true⟩
+  else olsFromRows (msdCounts t (some maxLag)) t.length dt true 1
+
+/-- `KymoTrack.estimate_diffusion(method, max_lag, localization_variance, variance_of_localization_variance)` on a
+    kymograph with blur constant `R`: returns the estimate and `num_lags` (`none` for cve).
+    `max_lag if max_lag else …`: `None` AND `0` mean "choose"; ols then asks `determine_optimal_points`, gls takes
+    `len(frame_idx)`. -/
+def estimateDiffusion (op : OptPts) (glsFn : GlsFn) (t : List Pt) (dt R : Rat) (method : String) (maxLag : Option Int)
+    (lv vlv : Option Rat) : Except String (Est × Option Int) :=
+  if method ≠ "cve" ∧ method ≠ "gls" ∧ method ≠ "ols" then .error "ValueError"
+  else if method = "cve" then (cve t dt R lv vlv).map fun c => (⟨c.D, c.var, c.lv, true⟩, none)
+  else if lv.isSome ∨ vlv.isSome then .error "NotImplementedError"
+  else
+    let chosen : Except String Int :=
+      match maxLag with
+      | some L => if L ≠ 0 then .ok L
+                  else if method = "ols" then (detOpt op t).map fun k => (k.1 : Int) else .ok (t.length : Int)
+      | none => if method = "ols" then (detOpt op t).map fun k => (k.1 : Int) else .ok (t.length : Int)
+    match chosen with
+    | .error e => .error e
+    | .ok L => (estimateSimple glsFn t dt L (method = "gls")).map fun e => (e, some L)
+
+/-- the GLS function of a run that only exercises the error branches of the dispatcher -/
+def glsUnmodelled : GlsFn := fun _ _ => .error "gls-not-modelled"
+
 /-! ### `_update_gls_estimate` (one step of the GLS fixed-point iteration) -/
 
 /-- `np.sum(f(i, j) * inverse_cov)` for an index-dependent factor: the sum over all cells `[r, c]` of `f r c w` -/
@@ -643,6 +687,8 @@ def ensembleVarScales (tracks : List (List MsdRow)) (lags : List Int) : List Rat
   `c09.ensolsauto [f;…] [x;…] dt`         → `ok value var lv numLags  sValue sVar sLv` | `tie`
   `c09.optraw le|inf|nan n`               → `ok numSlope numIntercept`  (`optimal_points`) | `tie`
   `c09.glsupd [row;row;…] [msd] a b`      → `ok change slope intercept varSlope  sSlope sIntercept sVar` (`_update_gls_estimate`)
+  `c09.est [frames] [xs] dt R method L|N lv|N vlv|N` → `ok value var lv numLags|N` (`KymoTrack.estimate_diffusion`, the dispatcher;
+                                             a GLS fit itself answers `gls-not-modelled`)
   (`tie`: a sign / `floor` the code branches on is decided by the last bits of a double: nothing to compare) -/
 def handle : List String → Option String
   | ["c09.msd", fs, xs, L] => do
@@ -766,6 +812,18 @@ def handle : List String → Option String
       let u := glsUpdate W msd a b
       let s := glsUpdateAbs W msd
       some ("ok " ++ showRats [u.change, u.slope, u.intercept, u.varSlope, s.1, s.2.1, s.2.2])
+  | ["c09.est", fs, xs, dt, R, method, L, lv, vlv] => do
+    let t ← mkTrack? fs xs
+    let dt ← rat? dt
+    let R ← rat? R
+    let L ← optInt? L
+    let lv ← optRat? lv
+    let vlv ← optRat? vlv
+    let auto := (method == "ols") && (L == none || L == some 0) && lv == none && vlv == none
+    if auto ∧ 5 ≤ t.length ∧ signTies (ptsOf (msdCounts t none)) then some "tie"
+    else some (showExcept (fun (r : Est × Option Int) =>
+      showRats [r.1.value] ++ " " ++ (if r.1.varDefined then showRat r.1.var else "nonfinite") ++ " " ++ showRats [r.1.lv]
+        ++ " " ++ showOptInt r.2) (estimateDiffusion optimalPointsT glsUnmodelled t dt R method L lv vlv))
   | _ => none
 
 end Verif.C09
